@@ -297,6 +297,10 @@ def rule_r2(chk, p, t):
         want_r = canon(ast.parse("result_mean * (high - low) / const.TWOPI + low", mode="eval").body)
         if not (rets and canon(rets[-1].value) == want_r):
             bad.append(f"rescaling `{unparse(rets[-1].value) if rets else None}`")
+        # every value handed back is the circular mean: no other way out (a linear-mean fallback is exactly what the
+        # helper exists to avoid; with unscented weights the resultant is tiny by construction, not degenerate)
+        for rt in rets[:-1]:
+            bad.append(f"an additional exit returns `{unparse(rt.value)[:60]}` instead of the rescaled circular mean")
         if bad:
             r.violation(am.qualname, "angularMean:" + ";".join(bad), "circular mean: " + "; ".join(bad), am.loc())
         else:
